@@ -234,6 +234,9 @@ func (s *SoftwrapScanner) Scan(ctx vxfw.DrawContext) bool {
 			s.rest = append(s.rest, trSpace...)
 			// Append the rest...
 			s.rest = append(s.rest, rest...)
+			// The line breaking state belongs to the text we had
+			// before, not to what has been put together here
+			s.state = -1
 			return true
 		}
 
